@@ -21,6 +21,7 @@ import (
 	"github.com/thushan/olla/internal/config"
 	"github.com/thushan/olla/internal/verif/h/lib/report"
 	"github.com/thushan/olla/internal/verif/h/lib/stack"
+	"github.com/thushan/olla/internal/verif/shim/vsync"
 )
 
 var res *report.Result
@@ -180,6 +181,18 @@ func runE2(engine string, pk pathKind, o *stack.Olla, a, b *stack.Backend) {
 		{"fwd-all", [][2]string{{"X-Forwarded-Proto", "https"}, {"X-Forwarded-Host", "front.example"}, {"X-Real-IP", "203.0.113.9"}, {"Via", "1.1 alpha, 1.1 beta"}, {"X-Forwarded-For", "203.0.113.1, 198.51.100.2"}}},
 	}
 	all := append(append([]string{}, sensitive...), "Keep-Alive", "Proxy-Authenticate", "TE", "Trailer", "Upgrade")
+	// what olla itself adds to an upstream request: learnt from a request that carries nothing but the framing headers
+	a.Reset()
+	b.Reset()
+	stack.Do(o.Addr, &stack.Req{Method: "POST", Target: pk.target, Body: []byte(`{"model":"m1","max_tokens":16,"messages":[{"role":"user","content":"hi"}]}`), Timeout: 8 * time.Second,
+		Headers: [][2]string{{"Content-Type", "application/json"}, {"anthropic-version", "2023-06-01"}, {"Connection", "close"}}})
+	added := map[string]bool{}
+	for _, q := range append(a.Requests(), b.Requests()...) {
+		for _, h := range q.Headers {
+			added[http.CanonicalHeaderKey(h[0])] = true
+		}
+	}
+	seq := 0
 	for _, ps := range presets {
 		for si := 0; si < 4; si++ {
 			for _, mult := range []int{1, 2} {
@@ -209,6 +222,10 @@ func runE2(engine string, pk pathKind, o *stack.Olla, a, b *stack.Backend) {
 				}
 				hs = append(hs, others...)
 				hs = append(hs, ps.lines...)
+				// a header name that only this request carries: it must arrive, and no later request may carry it
+				seq++
+				mark := fmt.Sprintf("X-Verif-Only-%d", seq)
+				hs = append(hs, [2]string{mark, fmt.Sprint(seq)})
 				hs = append(hs, [2]string{"Connection", "close"})
 				body := `{"model":"m1","max_tokens":16,"messages":[{"role":"user","content":"hi"}]}`
 				r := stack.Do(o.Addr, &stack.Req{Method: "POST", Target: pk.target, Body: []byte(body), Headers: hs, Timeout: 8 * time.Second})
@@ -229,6 +246,25 @@ func runE2(engine string, pk pathKind, o *stack.Olla, a, b *stack.Backend) {
 					}
 					if strings.Contains(h[1], "secret-") {
 						res.Violate("credential-value-forwarded", map[string]any{"part": "E2", "name": http.CanonicalHeaderKey(h[0])}, cell+fmt.Sprintf("\nbackend received %s: %s", h[0], h[1]), rp)
+					}
+				}
+				// nothing but what this client sent in this request, plus what olla adds on its own
+				sent := map[string]bool{}
+				for _, h := range hs {
+					sent[http.CanonicalHeaderKey(h[0])] = true
+				}
+				if q.Header(mark) != fmt.Sprint(seq) {
+					res.Violate("other-header-altered", map[string]any{"part": "E2", "path": pk.name}, cell+fmt.Sprintf("\n%s: client sent %d, backend received %q", mark, seq, q.Header(mark)), rp)
+				}
+				for _, h := range q.Headers {
+					n := http.CanonicalHeaderKey(h[0])
+					if !sent[n] && !added[n] {
+						cl := "header-not-from-this-request"
+						if strings.HasPrefix(n, "X-Verif-Only-") {
+							cl = "header-of-an-earlier-request-forwarded"
+						}
+						res.Violate(cl, map[string]any{"part": "E2", "path": pk.name, "engine": engine}, cell+fmt.Sprintf("\nbackend received %s: %s, which this client did not send and olla does not add to a bare request", h[0], h[1]), rp)
+						break
 					}
 				}
 				// other client headers unchanged (values and their order per name)
@@ -306,6 +342,7 @@ func prevLines(ps preset, name string) []string {
 
 func main() {
 	res = report.Init("C15", "exploration")
+	vsync.AllDeterministic = true
 	e1()
 	e2()
 	res.Info["grid"] = map[string]any{"E1": "every case mask of 12 deny-listed names x multiplicity {1,2} x value {\"\",x}", "E2_paths": []string{"proxy", "failover second attempt", "provider", "anthropic passthrough", "anthropic translation"},
